@@ -2,6 +2,8 @@
 # tools/seedtest.sh <property id> <patch file> [tier]   -- apply a seeded change to /repo, run the check, undo it
 PID=$1; PATCH=$2; TIER=${3:-quick}
 cd /repo && git apply "$PATCH" || exit 9
+cp /verif/evidence/$PID.json /tmp/evidence_$PID.keep 2>/dev/null
 cd /verif && ./checks/run.py $PID $TIER 2>&1 | grep -E "VIOLATION|KNOWN|UNDECIDED|SUMMARY|CRASH" | cut -c1-330
 echo "check exit: ${PIPESTATUS[0]}"
+cp /tmp/evidence_$PID.keep /verif/evidence/$PID.json 2>/dev/null; rm -f /tmp/evidence_$PID.keep
 cd /repo && git checkout -- . && git status --short | grep -v "^??" | head -3
